@@ -86,7 +86,14 @@ fn enforce_constraints_fd<U: User, E: Engine<U>>(x: LTerm<U, E>) -> Goal<U, E> {
         fngoal | engine,
         state | {
             state.verify_all_bound();
-            let bound_x = state.dstore_ref().keys().cloned().collect::<LTerm<U, E>>();
+            // Label the remaining domain variables in creation order: the iteration order of
+            // the domain store is randomized per run, and `onceo` commits to the first solution.
+            let mut hidden: Vec<LTerm<U, E>> = state.dstore_ref().keys().cloned().collect();
+            hidden.sort_by_key(|v| match v.as_ref() {
+                LTermInner::Var(id, _) => Some(*id),
+                _ => None,
+            });
+            let bound_x = hidden.into_iter().collect::<LTerm<U, E>>();
             proto_vulcan!( onceo { force_ans(bound_x) } ).solve(engine, state)
         }
     ])
